@@ -1,6 +1,6 @@
 (* Props/C10.v — property theorems for C10 only; each closed by `exact` of a lemma proved
    elsewhere, with Print Assumptions beneath. *)
-From KV Require Import Bytes BytesProofs WalCodec WalCodecProofs WalReuse.
+From KV Require Import Bytes BytesProofs WalCodec WalCodecProofs WalReuse WalReuseGen.
 Open Scope N_scope.
 
 Theorem C10_truncate : forall es n,
@@ -59,3 +59,24 @@ Theorem C10_damage_then_writes : forall pre L es',
   snd (replay_file (last files' [])) = Clean.
 Proof. exact WalReuse.C10_damage_then_writes. Qed.
 Print Assumptions C10_damage_then_writes.
+
+(* ... and for EVERY newest file whatsoever (cut, altered bytes whether or not the reader
+   notices them, garbage): no hypothesis on [L] or [pre] is left *)
+Theorem C10_any_damage_then_writes : forall pre L es',
+  forallb wf_entry es' = true ->
+  let files' := reuse_append (pre ++ [L]) (encode_log es') in
+  replay_dir files' = replay_dir (pre ++ [L]) ++ map canon es' /\
+  firstn (length pre) files' = pre /\
+  snd (replay_file (last files' [])) = Clean.
+Proof. exact WalReuseGen.C10_any_damage_then_writes. Qed.
+Print Assumptions C10_any_damage_then_writes.
+
+(* appending behind a file that replays cleanly extends the replay and nothing else *)
+Theorem C10_clean_then_writes : forall L es',
+  snd (replay_file L) = Clean -> forallb wf_entry es' = true ->
+  replay_file (L ++ encode_log es') = (fst (replay_file L) ++ map canon es', Clean).
+Proof.
+  intros L es' Hc Hes. apply WalReuseGen.C10_clean_then_writes_ok;
+    [exact Hc | apply forallb_wf_enc_ok; exact Hes].
+Qed.
+Print Assumptions C10_clean_then_writes.
